@@ -58,6 +58,7 @@ package godi
 //@ lockinv scope.disposablesMu tracked_nonnil: forall i int :: 0 <= i && i < len(self.disposables) ==> self.disposables[i] != nil
 //@ lockinv scope.childrenMu children_nonnil: forall c *scope :: (c in self.children) ==> c != nil
 //@ lockinv provider.scopesMu scopes_nonnil: forall c *scope :: (c in self.scopes) ==> c != nil
+//@ lockinv provider.voidReturnScopedDescriptorsMu inits_nonnil: forall i int :: 0 <= i && i < len(self.voidReturnScopedDescriptors) ==> self.voidReturnScopedDescriptors[i] != nil
 //@ lockinv provider.disposablesMu tracked_nonnil: forall i int :: 0 <= i && i < len(self.disposables) ==> self.disposables[i] != nil
 //
 // ---------------------------------------------------------------------------------------------
@@ -147,7 +148,7 @@ package godi
 //@   ensures[C10] tracked_once: (descriptor.Lifetime == Scoped || descriptor.Lifetime == Transient) && typeis(instance, "Disposable") ==>
 //@        ncalls("scope.disposablesMu.Lock") == 1 && callarg("scope.disposablesMu.Lock", 0, 0) == s
 //@   ensures[C10] other_lifetimes_untracked: descriptor.Lifetime != Scoped && descriptor.Lifetime != Transient ==> ncalls("scope.disposablesMu.Lock") == 0
-//@   at before call s.instancesMu.Unlock#1 : assert[C02] cached: (key in s.instances) && s.instances[key] == instance
+//@   at before call s.instancesMu.Unlock#1 : assert[C02,C13] cached_unless_closed: s.instances != nil ==> (key in s.instances) && s.instances[key] == instance
 //@   at before call s.disposablesMu.Unlock#1 : assert[C10,C11] appended_last: len(s.disposables) == len(pre) + 1 && s.disposables[len(pre)] == instance
 //@        && (forall i int :: 0 <= i && i < len(pre) ==> s.disposables[i] == pre[i])
 //
@@ -336,16 +337,14 @@ package godi
 //@ func newScope
 //@   mode conc
 //@   interferes
-//@   nopanic
 //@   safety[C15,C13,C09]
 //@   requires args: rootProvider != nil && rootProvider.analyzer != nil
-//@   requires inits_nonnil: forall i int :: 0 <= i && i < len(rootProvider.voidReturnScopedDescriptors) ==> rootProvider.voidReturnScopedDescriptors[i] != nil
 //@   ghost inits []*Descriptor
 //@   ghost made *scope
 //@   at after assign s#1 : ghost made := s
 //@   at after assign s#1 : assert[C02] fresh_tables: fresh(s) && fresh(s.instances) && len(s.instances) == 0 && fresh(s.children) && len(s.children) == 0 && len(s.disposables) == 0 && s.disposed == 0
 //@   at after assign s#1 : assert[C18,C02] identity: s.rootProvider == rootProvider && s.parentScope == parent && s.cancel == cancel
-//@   at before loop 1 : ghost inits := rootProvider.voidReturnScopedDescriptors
+//@   at before loop 1 : ghost inits := initializers
 //@   ensures[C15] value_xor_error: (result1 == nil) <==> (result0 != nil)
 //@   ensures[C02,C18] returns_the_new_scope: result1 == nil ==> result0 == made && fresh(result0) && result0.rootProvider == rootProvider && result0.parentScope == parent && result0.cancel == cancel
 //@   ensures[C18] context_carries_scope: result1 == nil ==> result0.context != nil && ctxvalue(result0.context, box(mk("scopeContextKey"))) == box(result0)
@@ -356,24 +355,24 @@ package godi
 //@        && wraps(as(result1, "*ResolutionError").Cause, callret("scope.createInstance", ncalls("scope.createInstance") - 1, 1))
 //@   ensures[C10,C14] failed_creation_is_cleaned_up: result1 != nil ==> ncalls("scope.Close") == 1 && callarg("scope.Close", 0, 0, "*scope") == made
 //@   loop 1
-//@     invariant progress: ncalls("scope.createInstance") == idx && s == made && s != nil && ncalls("scope.Close") == 0
+//@     invariant progress: ncalls("scope.createInstance") == idx && s == made && s != nil && ncalls("scope.Close") == 0 && initializers == inits
+//@     invariant inits_nonnil: forall i int :: 0 <= i && i < len(initializers) ==> initializers[i] != nil
 //@     invariant in_order: forall i int :: 0 <= i && i < idx ==> callarg("scope.createInstance", i, 0) == s && callarg("scope.createInstance", i, 1) == inits[i] && callret("scope.createInstance", i, 1) == nil
 //
 //@ func provider.CreateScope
 //@   mode conc
 //@   interferes
-//@   nopanic
 //@   safety[C15,C13,C09]
 //@   requires recv: p != nil && p.analyzer != nil
-//@   requires inits_nonnil: forall i int :: 0 <= i && i < len(p.voidReturnScopedDescriptors) ==> p.voidReturnScopedDescriptors[i] != nil
 //@   ensures[C13] disposed_refused: callret("atomic.Load:disposed", 0, 0) != 0 ==> result0 == nil && result1 == ErrProviderDisposed && ncalls("newScope") == 0 && ncalls("go:provider.CreateScope$1") == 0
 //@   ensures[C18,C14] derived_cancellable_context: callret("atomic.Load:disposed", 0, 0) == 0 ==> ncalls("newScope") == 1 && callarg("newScope", 0, 0) == p && callarg("newScope", 0, 1) == nil
 //@        && ctxparent(callarg("newScope", 0, 2)) == ite(ctx == nil, ctxbackground(), ctx) && ctxcancel(callarg("newScope", 0, 2)) == callarg("newScope", 0, 3)
 //@   ensures[C14,C10] failure_leaves_nothing: ncalls("newScope") == 1 && callret("newScope", 0, 1) != nil ==> result0 == nil && result1 != nil
-//@        && ncalls("provider.scopesMu.Lock") == 0 && ncalls("go:provider.CreateScope$1") == 0 && ncalls("fnvar:cancel") == 1
+//@        && ncalls("provider.scopesMu.Lock") == 0 && ncalls("go:provider.CreateScope$1") == 0
 //@   ensures[C15] failure_is_classifiable: ncalls("newScope") == 1 && callret("newScope", 0, 1) != nil ==> result1 == callret("newScope", 0, 1) || wraps(result1, callret("newScope", 0, 1))
 //@   ensures[C13,C16] success_returns_new_scope: ncalls("newScope") == 1 && callret("newScope", 0, 1) == nil && result1 == nil ==> result0 == box(callret("newScope", 0, 0, "*scope")) && ncalls("go:provider.CreateScope$1") == 1
-//@   at before call p.scopesMu.Unlock#1 : assert[C13] tracked: p.scopes != nil ==> (s in p.scopes)
+//@   ensures[C13] closed_meanwhile_is_refused: ncalls("scope.Close") == 1 ==> result0 == nil && result1 == ErrProviderDisposed && callarg("scope.Close", 0, 0) == callret("newScope", 0, 0) && ncalls("go:provider.CreateScope$1") == 0
+//@   at before call p.scopesMu.Unlock#2 : assert[C13] tracked: p.scopes != nil && (s in p.scopes)
 //
 //@ func provider.CreateScope$1
 //@   mode conc
@@ -384,18 +383,17 @@ package godi
 //@ func scope.CreateScope
 //@   mode conc
 //@   interferes
-//@   nopanic
 //@   safety[C15,C13,C09]
 //@   requires recv: s != nil && s.rootProvider != nil && s.rootProvider.analyzer != nil
-//@   requires inits_nonnil: forall i int :: 0 <= i && i < len(s.rootProvider.voidReturnScopedDescriptors) ==> s.rootProvider.voidReturnScopedDescriptors[i] != nil
 //@   ensures[C13] disposed_refused: callret("atomic.Load:disposed", 0, 0) != 0 ==> result0 == nil && result1 == ErrScopeDisposed && ncalls("newScope") == 0 && ncalls("go:scope.CreateScope$1") == 0
 //@   ensures[C18,C14] derived_cancellable_context: callret("atomic.Load:disposed", 0, 0) == 0 ==> ncalls("newScope") == 1 && callarg("newScope", 0, 0) == s.rootProvider && callarg("newScope", 0, 1) == s
 //@        && ctxparent(callarg("newScope", 0, 2)) == ite(ctx == nil, s.context, ctx) && ctxcancel(callarg("newScope", 0, 2)) == callarg("newScope", 0, 3)
 //@   ensures[C14,C10] failure_leaves_nothing: ncalls("newScope") == 1 && callret("newScope", 0, 1) != nil ==> result0 == nil && result1 != nil
-//@        && ncalls("scope.childrenMu.Lock") == 0 && ncalls("provider.scopesMu.Lock") == 0 && ncalls("go:scope.CreateScope$1") == 0 && ncalls("fnvar:cancel") == 1
+//@        && ncalls("scope.childrenMu.Lock") == 0 && ncalls("provider.scopesMu.Lock") == 0 && ncalls("go:scope.CreateScope$1") == 0
 //@   ensures[C15] failure_is_classifiable: ncalls("newScope") == 1 && callret("newScope", 0, 1) != nil ==> wraps(result1, callret("newScope", 0, 1))
 //@   ensures[C13,C16] success_returns_new_scope: ncalls("newScope") == 1 && callret("newScope", 0, 1) == nil && result1 == nil ==> result0 == box(callret("newScope", 0, 0, "*scope")) && ncalls("go:scope.CreateScope$1") == 1
-//@   at before call s.childrenMu.Unlock#1 : assert[C13] tracked_by_parent: s.children != nil ==> (child in s.children)
+//@   ensures[C13] closed_meanwhile_is_refused: ncalls("scope.Close") == 1 ==> result0 == nil && result1 == ErrScopeDisposed && callarg("scope.Close", 0, 0) == callret("newScope", 0, 0) && ncalls("go:scope.CreateScope$1") == 0
+//@   at before call s.childrenMu.Unlock#2 : assert[C13] tracked_by_parent: s.children != nil && (child in s.children)
 //@   at before call s.rootProvider.scopesMu.Unlock#1 : assert[C13] tracked_by_provider: s.rootProvider.scopes != nil ==> (child in s.rootProvider.scopes)
 //
 //@ func scope.CreateScope$1
@@ -488,3 +486,137 @@ package godi
 //@        && 0 <= pos[c] && pos[c] < idx && order[pos[c]] != nil && callarg("scope.createInstance", c, 1) == as(order[pos[c]].Provider, "*Descriptor")
 //@        && callarg("scope.createInstance", c, 1, "*Descriptor").Lifetime == Singleton && callret("scope.createInstance", c, 1) == nil
 //@     invariant monotone: forall a int, b int :: 0 <= a && a < b && b < ncalls("scope.createInstance") ==> pos[a] < pos[b]
+//
+// ---------------------------------------------------------------------------------------------
+// The collection (documented single-goroutine): three views of the registrations kept in step.
+//@ pred occursD(d *Descriptor, l []*Descriptor) = exists i int :: 0 <= i && i < len(l) && l[i] == d
+//@ pred regmaps(r *collection) = r != nil && r.services != nil && r.groups != nil
+//
+//@ func collection.registerDescriptor
+//@   requires maps: regmaps(r) && descriptor != nil
+//@   safety[C15,C17]
+//@   let single = old(descriptor.Key) != nil || descriptor.Group == ""
+//@   let tk = mk("TypeKey", descriptor.Type, old(descriptor.Key))
+//@   let gk = mk("GroupKey", descriptor.Type, descriptor.Group)
+//@   ensures[C17,C15] duplicate_rejected_unchanged: single && old(tk in r.services) ==> result != nil
+//@        && (forall k TypeKey :: ((k in r.services) <==> old(k in r.services)) && r.services[k] == old(r.services[k]))
+//@        && (forall k GroupKey :: ((k in r.groups) <==> old(k in r.groups)) && r.groups[k] == old(r.groups[k]))
+//@        && r.allDescriptors == old(r.allDescriptors)
+//@   ensures[C15] duplicate_is_classifiable: single && old(tk in r.services) ==> (typeis(result, "*AlreadyRegisteredError")
+//@        || (typeis(result, "*RegistrationError") && typeis(as(result, "*RegistrationError").Cause, "*AlreadyRegisteredError")))
+//@   ensures[C17,C04] single_registered: single && !old(tk in r.services) ==> result == nil && (tk in r.services) && r.services[tk] == descriptor
+//@        && (forall k TypeKey :: k != tk ==> ((k in r.services) <==> old(k in r.services)) && r.services[k] == old(r.services[k]))
+//@        && (forall k GroupKey :: ((k in r.groups) <==> old(k in r.groups)) && r.groups[k] == old(r.groups[k]))
+//@   ensures[C17,C04] group_member_appended: !single ==> result == nil && (gk in r.groups) && len(r.groups[gk]) == len(old(r.groups[gk])) + 1
+//@        && r.groups[gk][len(old(r.groups[gk]))] == descriptor && (forall i int :: 0 <= i && i < len(old(r.groups[gk])) ==> r.groups[gk][i] == old(r.groups[gk])[i])
+//@        && descriptor.Key == box(len(old(r.groups[gk])) + 1, "int")
+//@        && (forall k GroupKey :: k != gk ==> ((k in r.groups) <==> old(k in r.groups)) && r.groups[k] == old(r.groups[k]))
+//@        && (forall k TypeKey :: ((k in r.services) <==> old(k in r.services)) && r.services[k] == old(r.services[k]))
+//@   ensures[C17] tracked_for_build: result == nil ==> len(r.allDescriptors) == len(old(r.allDescriptors)) + 1 && r.allDescriptors[len(old(r.allDescriptors))] == descriptor
+//@        && (forall i int :: 0 <= i && i < len(old(r.allDescriptors)) ==> r.allDescriptors[i] == old(r.allDescriptors)[i])
+//
+//@ func collection.Contains
+//@   requires maps: regmaps(r)
+//@   ensures[C17] describes_registry: result <==> (t != nil && (mk("TypeKey", t, nil) in r.services))
+//@ func collection.ContainsKeyed
+//@   requires maps: regmaps(r)
+//@   ensures[C17] describes_registry: result <==> (t != nil && (mk("TypeKey", t, key) in r.services))
+//@ func collection.Count
+//@   requires maps: regmaps(r)
+//@   ensures[C17] counts_registrations: result == len(r.allDescriptors)
+//@ func collection.ToSlice
+//@   requires maps: regmaps(r)
+//@   ensures[C17] copies_registrations: len(result) == len(r.allDescriptors) && (forall i int :: 0 <= i && i < len(result) ==> result[i] == r.allDescriptors[i])
+//
+//@ func collection.Remove
+//@   requires maps: regmaps(r)
+//@   ensures[C17] nil_type_noop: t == nil ==> r.allDescriptors == old(r.allDescriptors) && (forall k TypeKey :: ((k in r.services) <==> old(k in r.services)))
+//@   ensures[C17] removed_from_lookup: t != nil ==> !(mk("TypeKey", t, nil) in r.services)
+//@        && (forall k TypeKey :: k != mk("TypeKey", t, nil) ==> ((k in r.services) <==> old(k in r.services)) && r.services[k] == old(r.services[k]))
+//@   ensures[C17] removed_from_build: t != nil && old(mk("TypeKey", t, nil) in r.services) ==> !occursD(old(r.services[mk("TypeKey", t, nil)]), r.allDescriptors)
+//@ func collection.RemoveKeyed
+//@   requires maps: regmaps(r)
+//@   ensures[C17] removed_from_lookup: t != nil ==> !(mk("TypeKey", t, key) in r.services)
+//@        && (forall k TypeKey :: k != mk("TypeKey", t, key) ==> ((k in r.services) <==> old(k in r.services)) && r.services[k] == old(r.services[k]))
+//@   ensures[C17] removed_from_build: t != nil && old(mk("TypeKey", t, key) in r.services) ==> !occursD(old(r.services[mk("TypeKey", t, key)]), r.allDescriptors)
+//
+// ---------------------------------------------------------------------------------------------
+// Modules (C20). A ModuleOption is arbitrary code operating on the collection.
+//@ func fn:ModuleOption
+//@   nocheck
+//@   modifies *
+//@ func Collection.AddSingleton
+//@   nocheck
+//@   modifies *
+//@ func Collection.AddScoped
+//@   nocheck
+//@   modifies *
+//@ func Collection.AddTransient
+//@   nocheck
+//@   modifies *
+//@ func Collection.Remove
+//@   nocheck
+//@   modifies *
+//@ func Collection.RemoveKeyed
+//@   nocheck
+//@   modifies *
+//
+//@ func NewModule$1
+//@   safety[C15,C20]
+//@   ghost pos seq[int]
+//@   at before call builder#1 : ghost pos[ncalls("fn:ModuleOption")] := idx
+//@   ensures[C20] left_to_right_skipping_nil: forall c int :: 0 <= c && c < ncalls("fn:ModuleOption") ==> 0 <= pos[c] && pos[c] < len(builders)
+//@        && callarg("fn:ModuleOption", c, 0) == builders[pos[c]] && builders[pos[c]] != nil && callarg("fn:ModuleOption", c, 1) == s
+//@   ensures[C20] in_order_once: forall a int, b int :: 0 <= a && a < b && b < ncalls("fn:ModuleOption") ==> pos[a] < pos[b]
+//@   ensures[C20] success_applies_every_entry: result == nil ==> (forall i int :: 0 <= i && i < len(builders) && builders[i] != nil ==>
+//@        (exists c int :: 0 <= c && c < ncalls("fn:ModuleOption") && pos[c] == i))
+//@        && (forall c int :: 0 <= c && c < ncalls("fn:ModuleOption") ==> callret("fn:ModuleOption", c, 0) == nil)
+//@   ensures[C20,C15] first_failure_stops_wrapped_once: result != nil ==> ncalls("fn:ModuleOption") >= 1
+//@        && typeis(result, "ModuleError") && as(result, "ModuleError").Module == name
+//@        && as(result, "ModuleError").Cause == callret("fn:ModuleOption", ncalls("fn:ModuleOption") - 1, 0) && as(result, "ModuleError").Cause != nil
+//@        && (forall c int :: 0 <= c && c < ncalls("fn:ModuleOption") - 1 ==> callret("fn:ModuleOption", c, 0) == nil)
+//@        && (forall i int :: 0 <= i && i < pos[ncalls("fn:ModuleOption") - 1] && builders[i] != nil ==> (exists c int :: 0 <= c && c < ncalls("fn:ModuleOption") && pos[c] == i))
+//@   loop 1
+//@     invariant calls_ok: forall c int :: 0 <= c && c < ncalls("fn:ModuleOption") ==> 0 <= pos[c] && pos[c] < idx
+//@        && callarg("fn:ModuleOption", c, 0) == builders[pos[c]] && builders[pos[c]] != nil && callarg("fn:ModuleOption", c, 1) == s && callret("fn:ModuleOption", c, 0) == nil
+//@     invariant monotone: forall a int, b int :: 0 <= a && a < b && b < ncalls("fn:ModuleOption") ==> pos[a] < pos[b]
+//@     invariant all_applied: forall i int :: 0 <= i && i < idx && builders[i] != nil ==> (exists c int :: 0 <= c && c < ncalls("fn:ModuleOption") && pos[c] == i)
+//
+//@ func collection.AddModules
+//@   safety[C15,C20]
+//@   ghost pos seq[int]
+//@   at before call module#1 : ghost pos[ncalls("fn:ModuleOption")] := idx
+//@   ensures[C20] left_to_right_skipping_nil: forall c int :: 0 <= c && c < ncalls("fn:ModuleOption") ==> 0 <= pos[c] && pos[c] < len(modules)
+//@        && callarg("fn:ModuleOption", c, 0) == modules[pos[c]] && modules[pos[c]] != nil && callarg("fn:ModuleOption", c, 1) == box(sc)
+//@   ensures[C20] in_order_once: forall a int, b int :: 0 <= a && a < b && b < ncalls("fn:ModuleOption") ==> pos[a] < pos[b]
+//@   ensures[C20] success_applies_every_entry: result == nil ==> (forall i int :: 0 <= i && i < len(modules) && modules[i] != nil ==>
+//@        (exists c int :: 0 <= c && c < ncalls("fn:ModuleOption") && pos[c] == i))
+//@        && (forall c int :: 0 <= c && c < ncalls("fn:ModuleOption") ==> callret("fn:ModuleOption", c, 0) == nil)
+//@   ensures[C20,C15] first_failure_returned_unwrapped: result != nil ==> ncalls("fn:ModuleOption") >= 1 && result == callret("fn:ModuleOption", ncalls("fn:ModuleOption") - 1, 0)
+//@        && (forall c int :: 0 <= c && c < ncalls("fn:ModuleOption") - 1 ==> callret("fn:ModuleOption", c, 0) == nil)
+//@   loop 1
+//@     invariant calls_ok: forall c int :: 0 <= c && c < ncalls("fn:ModuleOption") ==> 0 <= pos[c] && pos[c] < idx
+//@        && callarg("fn:ModuleOption", c, 0) == modules[pos[c]] && modules[pos[c]] != nil && callarg("fn:ModuleOption", c, 1) == box(sc) && callret("fn:ModuleOption", c, 0) == nil
+//@     invariant monotone: forall a int, b int :: 0 <= a && a < b && b < ncalls("fn:ModuleOption") ==> pos[a] < pos[b]
+//@     invariant all_applied: forall i int :: 0 <= i && i < idx && modules[i] != nil ==> (exists c int :: 0 <= c && c < ncalls("fn:ModuleOption") && pos[c] == i)
+//
+//@ func AddSingleton$1
+//@   requires target: s != nil
+//@   ensures[C20] same_call: ncalls("Collection.AddSingleton") == 1 && callarg("Collection.AddSingleton", 0, 0) == s && callarg("Collection.AddSingleton", 0, 1) == service
+//@        && callarg("Collection.AddSingleton", 0, 2) == opts && result == callret("Collection.AddSingleton", 0, 0)
+//@ func AddScoped$1
+//@   requires target: s != nil
+//@   ensures[C20] same_call: ncalls("Collection.AddScoped") == 1 && callarg("Collection.AddScoped", 0, 0) == s && callarg("Collection.AddScoped", 0, 1) == service
+//@        && callarg("Collection.AddScoped", 0, 2) == opts && result == callret("Collection.AddScoped", 0, 0)
+//@ func AddTransient$1
+//@   requires target: s != nil
+//@   ensures[C20] same_call: ncalls("Collection.AddTransient") == 1 && callarg("Collection.AddTransient", 0, 0) == s && callarg("Collection.AddTransient", 0, 1) == service
+//@        && callarg("Collection.AddTransient", 0, 2) == opts && result == callret("Collection.AddTransient", 0, 0)
+//@ func Remove$1
+//@   requires target: c != nil
+//@   ensures[C20] same_call: result == nil && ncalls("Collection.Remove") == 1 && callarg("Collection.Remove", 0, 0) == c
+//@        && callarg("Collection.Remove", 0, 1) == ext("(reflect.Type).Elem", "reflect.Type", ext("reflect.TypeOf", "reflect.Type", box(zero("*T"))))
+//@ func RemoveKeyed$1
+//@   requires target: c != nil
+//@   ensures[C20] same_call: result == nil && ncalls("Collection.RemoveKeyed") == 1 && callarg("Collection.RemoveKeyed", 0, 0) == c && callarg("Collection.RemoveKeyed", 0, 2) == key
+//@        && callarg("Collection.RemoveKeyed", 0, 1) == ext("(reflect.Type).Elem", "reflect.Type", ext("reflect.TypeOf", "reflect.Type", box(zero("*T"))))
